@@ -1,3 +1,4 @@
+#![feature(linkage)]
 //! pvc-hal: HAL-level checks (C07-C12, C17 drivers).  usage: pvc-hal <Cxx> --tier quick|thorough [--replay f] [--only family]
 
 pub mod be;
@@ -8,6 +9,7 @@ pub mod c09;
 pub mod c10;
 pub mod c11;
 pub mod c12;
+pub mod c17;
 pub mod ops;
 pub mod util;
 
@@ -40,6 +42,7 @@ fn main() {
             }
             run.finish()
         }
+        "C17" => check!("exploration", c17::run, c17::replay),
         "C12" => {
             let mut run = Run::new(&args, "exploration");
             match &args.replay {
